@@ -155,7 +155,8 @@ def judge(c, d, obs, consts):
     # budget 1, and Krylov dimension 1 (multiple of the identity / first start vector an eigenvector)
     if num_iter < 2:
         info["cell"] = "num_iter<2"
-    elif c["fam"] == "scalar" or c.get("start") == "eigvec":
+    elif c["fam"] == "scalar" or c.get("start") == "eigvec" or c.get("eig_at") \
+            or (isinstance(c["fam"], (list, tuple)) and "scalar" in c["fam"]):
         info["cell"] = "beta0_breakdown"
     ncol = S.prod(c["batch"]) * nvec          # number of columns that share the two global reductions
     fails = []
@@ -247,6 +248,14 @@ def judge(c, d, obs, consts):
             if pp["nan"]:
                 fails.append({"fail": "prefix-nan", "j": p["j"], "b": p["b"], "prefix": w})
                 continue
+            if w == m and not p["nan"]:
+                # a member that did not break down itself: it is owed its full decomposition, whatever the other members
+                # of the batch do -- an exit before the budget must leave ITS residual below the threshold
+                info.setdefault("member_ok", []).append([p["j"], p["b"]])
+                lim = brk * 1.001 + 100 * eps * n * an
+                if m < num_iter and p["last"] > lim:
+                    fails.append({"fail": "member-truncated-after-first-step" if m == 1 else "member-early-exit-residual",
+                                  "j": p["j"], "b": p["b"], "m": m, "budget": num_iter, "value": p["last"], "tolerance": lim})
             for k, fac in (("orth", 1.0), ("proj", 4.0), ("supp", 4.0)):
                 worst["prefix_" + k] = max(worst.get("prefix_" + k, 0.0), pp[k] / (fac * tl))
                 if pp[k] > fac * tl:
@@ -263,7 +272,8 @@ def judge(c, d, obs, consts):
                 if dev > lim:
                     fails.append({"fail": "column-norm", "j": p["j"], "b": p["b"], "value": dev, "tolerance": lim})
         # report a failure that is not covered by the known-finding keys first
-        fails.sort(key=lambda f: 0 if (f["fail"].startswith("prefix-") or f["fail"] == "column-norm") else 1)
+        rank = {"member-truncated-after-first-step": 0, "member-early-exit-residual": 2}
+        fails.sort(key=lambda f: rank.get(f["fail"], 1 if (f["fail"].startswith("prefix-") or f["fail"] == "column-norm") else 3))
     info["worst"] = worst
     info["preds"] = [{k: p[k] for k in ("j", "b", "orth", "proj", "supp", "last", "tier")} for p in pr[:4]]
     return fails, info
@@ -353,6 +363,35 @@ def compare_policy(c, d, obs, info, consts):
     return cmp_, cmp_exit, rtol
 
 
+def member_policy(c, d, obs, info):
+    """member-wise value comparison in a mixed cell (some member of the batch / some start vector broke down): per leading
+    index (start vector j, batch member b; j-major) the number of Lanczos vectors compared with the model -- the usual
+    policy of the member's own family for the members that did not break down themselves (a member's vectors depend on its
+    own (A, q_0) only: theorem C09_member_independence), 0 for the others.  [] = not a mixed cell (one policy for all).
+    float64 only (binary32 noise makes the global extra-pass decisions differ between model and torch)."""
+    if obs[0] != "ok" or info.get("cell") not in ("beta0_breakdown", "partial_breakdown") or c["dtype"] != "f64":
+        return []
+    ok = info.get("member_ok") or []
+    if not ok:
+        return []
+    B = S.prod(c["batch"])
+    out = []
+    for j in range(c["nvec"]):
+        for b in range(B):
+            if [j, b] not in ok:
+                out.append(0)
+                continue
+            f = c["fam"][b % len(c["fam"])] if isinstance(c["fam"], (list, tuple)) else c["fam"]
+            db = d["d"][b] if b < len(d["d"]) else None
+            if f in ("uniform", "kappa10", "intgram"):
+                out.append(1000)
+            elif f in ("geometric", "wide", "rbf") or db is None:
+                out.append(6)
+            else:
+                out.append(min(db, 16))
+    return out
+
+
 def beta_margin_bad(c, d, obs, consts):
     """True when a decision `|beta| > 1e-6` of the run is fragile: a retained beta, or the (recomputed) beta at an
     early exit, lies within 1% of the threshold, or the exit beta is not clearly rounding noise / clearly tiny."""
@@ -412,13 +451,14 @@ def case_lit(c, d, obs, info, consts, ov=None):
         ek = S.err_kind(obs[1], obs[2])
         o = "ObsErrOther" if ek.startswith("Other:") else "(ObsErr %s)" % ek
     cmp_, cmp_exit, rtol = compare_policy(c, d, obs, info, consts)
+    cmpv = member_policy(c, d, obs, info)
     tol = consts["tol"] if c["tol"] is None else c["tol"]
-    return ("MkCase %s %s %d %s %d %s %s %d %s %s %s %d %s %s %s" % (
+    return ("MkCase %s %s %d %s %d %s %s %d %s %s %s %d %s %s %s %s" % (
         common.coq_bool(c["dtype"] == "f32"), common.coq_bool(ov.get("callable", True)), ov.get("arg_n", n),
         nat_seq(ov.get("arg_batch", batch)), c["max_iter"],
         seq_lit([fmat_lit(Ad[b]) for b in range(B)]), init, nvec, randn, common.flit(tol),
-        common.coq_bool(ov.get("debug", True)), cmp_, common.coq_bool(cmp_exit),
-        common.flit(rtol), o)), (cmp_, cmp_exit, rtol)
+        common.coq_bool(ov.get("debug", True)), cmp_, nat_seq(cmpv), common.coq_bool(cmp_exit),
+        common.flit(rtol), o)), (max([cmp_] + cmpv), cmp_exit, rtol)
 
 
 HEADER = ("From Coq Require Import PrimFloat.\n"
@@ -671,6 +711,7 @@ def run(ctx):
         r = P.run_api(c, d)
         counters["api_calls"] += 1
         lcell = "regular"
+        member_ok = None
         if r["ok"] and c["api"] != "to_diag" and r["rec"].lanczos:
             kw, q, t = r["rec"].lanczos[-1]
             # the budget of the internal Lanczos run is the user's max_root_decomposition_size (NOT what the call happened
@@ -692,6 +733,7 @@ def run(ctx):
             f2, info2 = judge(c2, d2, obs2, consts)
             info2["beta_margin_bad"] = (not any(f["fail"] == "shape" for f in f2)) and beta_margin_bad(c2, d2, obs2, consts)
             lcell = info2["cell"]
+            member_ok = info2.get("member_ok")
             if c["fam"] != "indef":
                 results.append((c2, d2, obs2, f2, info2, None))
                 account(c2, obs2, f2, info2)
@@ -699,13 +741,14 @@ def run(ctx):
                 info2["cell"] = "indefinite"          # outside the property (PSD): model comparison only
                 f2 = []
                 results.append((c2, d2, obs2, f2, info2, None))
-        fa, infa = P.judge_api(c, d, r, lcell, default_jitter=1e-6)
+        fa, infa = P.judge_api(c, d, r, lcell, default_jitter=1e-6, member_ok=member_ok)
         for k, v in infa.get("worst", {}).items():
             api_worst[k] = max(api_worst.get(k, 0.0), v)
         if fa:
             key = {"api": c["api"], "cell": lcell, "fail": fa[0]["fail"]}
             if fa[0]["fail"] == "raises":
                 key["error"] = fa[0].get("error", "").split(":")[0]
+                key["scalar_member"] = bool(isinstance(c["fam"], (list, tuple)) and "scalar" in c["fam"])
             if ctx.violation({"kind": "property-predicate-fails-on-implementation", "cell": c, "failures": fa[:6],
                               "info": {k: v for k, v in infa.items() if k != "worst"},
                               "expected": "R R^T (resp. the diagonalisation) equals the orthogonal compression P A P + jitter P "
